@@ -41,6 +41,11 @@ func c14Gen(seed uint64, run int, tier string) *Case {
 		ncallers = r.Range(1, 6)
 	}
 	c.Stratum = fmt.Sprintf("iounit=%d", eff)
+	if run%5 == 4 {
+		// the file system fails now and then: a call may fail, it may never return wrong data or lose written data silently
+		c.Cfg["osrate"] = int64(r.Pick(10, 30, 80))
+		c.Stratum += " os-errors"
+	}
 	for ci := 0; ci < ncallers; ci++ {
 		nfiles := r.Range(1, 3)
 		var ops []Op
@@ -89,6 +94,9 @@ func c14Exec(x *Ctx) {
 	defer u.Cleanup()
 	go9p.DefaultDebuglevel = 0
 	go9p.DefaultLogger = nil
+	if rate := int(c.cfg("osrate")); rate > 0 {
+		x.S.OSRate, x.S.OSMax = rate, 5
+	}
 	var gs []*rt.G
 	mountErr := ""
 	mainG := rt.Go(rt.SiteSpawn, func() {
@@ -114,7 +122,8 @@ func c14Exec(x *Ctx) {
 		return
 	}
 	u.CountFaults()
-	if mountErr != "" {
+	x.FaultN("os-error", len(x.S.OSLog))
+	if mountErr != "" && len(x.S.OSLog) == 0 {
 		x.Violate("e0-mount", "mounting the Ufs tree failed: %s", mountErr)
 	}
 	for _, g := range gs {
@@ -126,9 +135,16 @@ func c14Exec(x *Ctx) {
 
 func c14Caller(x *Ctx, u *UfsSys, clnt *go9p.Clnt, ci int, ops []Op) {
 	files := map[int]*c14File{}
-	viol := func(rule, format string, a ...any) { x.Violate(rule, "caller %d: "+format, append([]any{ci}, a...)...) }
+	osMark := 0
+	viol := func(rule, format string, a ...any) {
+		if len(x.S.OSLog) > osMark && rule != "e3-disk" {
+			return // an injected OS error fired while this call was running: it may fail (it may not corrupt: e3-disk stays armed)
+		}
+		x.Violate(rule, "caller %d: "+format, append([]any{ci}, a...)...)
+	}
 	for _, op := range ops {
 		if op.K == "file" {
+			osMark = len(x.S.OSLog)
 			name := fmt.Sprintf("c%d-f%d", ci, op.a(0))
 			content := fileContent(name, int(op.a(1)))
 			if err := os.WriteFile(filepath.Join(u.Root, name), content, 0o644); err != nil {
@@ -147,6 +163,7 @@ func c14Caller(x *Ctx, u *UfsSys, clnt *go9p.Clnt, ci int, ops []Op) {
 		if f == nil {
 			continue
 		}
+		osMark = len(x.S.OSLog)
 		off, cnt := int(op.a(1)), int(op.a(2))
 		io32 := int(f.fid.Iounit)
 		want := func(off, n int) []byte {
@@ -307,9 +324,9 @@ func c14Caller(x *Ctx, u *UfsSys, clnt *go9p.Clnt, ci int, ops []Op) {
 			if err != nil || n != cnt {
 				viol("e2-written", "Written(%q, %d bytes, off=%d) returned (%d, %v)", f.name, cnt, off, n, err)
 			}
-			if err == nil {
-				applyWrite(off, data[:n])
-				checkDisk(fmt.Sprintf("Written(off=%d,n=%d)", off, n))
+			if n >= 0 && n <= cnt {
+				applyWrite(off, data[:n]) // what it reports as written must be in the file, also when it stops on an error
+				checkDisk(fmt.Sprintf("Written(off=%d,n=%d,err=%v)", off, n, err))
 			}
 			if cnt > io32 {
 				x.Probe("written-spanning-messages")
